@@ -252,6 +252,8 @@ class Ctx:
         self.stage_info: Dict[str, Any] = {}
         self.violations: List[Dict[str, Any]] = []
         self.known_hits: List[str] = []
+        self.known_counts: Dict[str, int] = {}
+        self.known_examples: Dict[str, Any] = {}
         self.assumptions: List[str] = []
         self.findings = load_findings()
         self.exhaustive = False
@@ -289,9 +291,11 @@ class Ctx:
                 continue
             if finding_matches(f, stage, inp, verdict):
                 msg = f"KNOWN-FINDING: property={self.pid} {f['what']}"
+                self.known_counts[msg] = self.known_counts.get(msg, 0) + 1
                 if msg not in self.known_hits:
                     self.known_hits.append(msg)
                     print(msg, flush=True)
+                    self.known_examples[msg] = inp
                 return
         REPLAY.mkdir(exist_ok=True)
         d = REPLAY / self.pid
@@ -320,7 +324,7 @@ class Ctx:
             "exhaustive": self.exhaustive,
             "skipped_precondition": self.skipped,
             "stages": self.stage_info,
-            "known_findings_hit": self.known_hits,
+            "known_findings_hit": [{"finding": k, "cases": self.known_counts.get(k, 0), "example_input": self.known_examples.get(k)} for k in self.known_hits],
             "checker_cmd": "; ".join(self.checker_cmds[:6]),
         }
         ev = {
@@ -357,6 +361,8 @@ def finding_matches(f: Dict[str, Any], stage: str, inp: Any, verdict: str) -> bo
     if f.get("verdict") not in (None, verdict):
         return False
     d = digest(inp)
+    if f.get("match") == "verdict":      # identified by call site: the judge's clause name carries the mechanism
+        return f.get("verdict") == verdict
     if "input_digests" in f and d in f["input_digests"]:
         return True
     if "inputs" in f and any(cj(i) == cj(inp) for i in f["inputs"]):
@@ -498,6 +504,8 @@ def run_stage(ctx: Ctx, stage: Stage, inputs: Optional[List[Any]] = None) -> Non
     verdicts = judge_cases(ctx, stage, cases)
     for c, i, v in zip(cases, idx, verdicts):
         ctx.evaluations += 1
+        if v.startswith("MACHINERY:"):
+            raise MachineryError(f"stage {stage.name}: the specification's own lemma failed on a case: {v} {cj(inputs[i])[:400]}")
         if v.startswith("skip:"):
             ctx.skip(f"{stage.name}:{v[5:]}")
             info["skipped"] += 1
@@ -514,7 +522,8 @@ def run_stage(ctx: Ctx, stage: Stage, inputs: Optional[List[Any]] = None) -> Non
             if info["ok"] in (1, 17):
                 ctx.sample({"stage": stage.name, "case": c})
         else:
-            ctx.violation(stage.name, inputs[i], v, c)
+            for clause in v.split(";"):
+                ctx.violation(stage.name, inputs[i], clause, c)
     info["wall_s"] = round(time.time() - t0, 1)
     ctx.stage_info[stage.name] = info
     print(f"[{ctx.pid}] stage {stage.name}: inputs={info['inputs']} judged={info['judged']} ok={info['ok']} "
